@@ -33,6 +33,15 @@ J  Journal mode / provenance: the mode is a state component of the database FILE
         writers).  Gen_Workers_prov(q) enumerates page-work / start-up interleavings on these.
         The journal mode the file at the path has after each start-up script is read from the
         file header and compared by Trace_Workers (DRIFT-only item `obs`).
+T  Transactions: every connection has a transaction state in the model (Workers.tla, txn: none / write / begun; the
+        write lock is with the connection for as long as its write transaction is open, also when the statement changed
+        nothing); ideal-model invariant NoIdleTransaction (no connection is inside a transaction when no library call is
+        active on it); a writer that meets the lock with an IDLE holder fails ("locked": the idle context may outlive any
+        busy timeout), whereas a holder inside its call always goes on.  Every worker reports Connection.in_transaction
+        with every operation (close: at the idle point before close_db_conn); Trace_Workers compares it with txn
+        (DRIFT-only items `obs` k = tx / idle).  Gen_Workers_boot3: three workers that all look the bootstrap page up
+        before the first write, every order of the writes x every placement of every close (idle earlier writers).
+        Replays close a context only where the schedule closes it.  Demo_Workers_idletxn(_locked), Demo_LockWait_idle.
 V  The (process, operation, result) trace actually performed is validated by TLC
         against Trace_Workers (operation-level semantics of the same module), for the
         replays and for a stress mode: 2..16 free-running workers with random start
@@ -735,9 +744,11 @@ def step(kids, c: Child, tracked, trace, sched_label=None, timeout=9.0):
 
 
 def lock_holders(kids, c: Child) -> list:
-    """Workers parked at a schedule point INSIDE a library call whose connection is inside a transaction: they hold
-    (or may hold) the write lock in a critical section that ends when they are allowed to go on."""
-    return [h for h in kids if h is not c and h.state == "want" and h.tx == "y" and h.want["cls"] != "close"]
+    """Workers parked at a schedule point INSIDE a library call whose connection is inside a transaction and whose next
+    operation is NOT the commit (the real code keeps its transaction open across more operations than the model, which
+    writes and commits; a holder parked right before its commit is where the model's schedules put it on purpose):
+    they hold the write lock in a critical section that ends when they are allowed to go on."""
+    return [h for h in kids if h is not c and h.state == "want" and h.tx == "y" and h.want["cls"] not in ("close", "commit")]
 
 
 def waited_write(kids, c: Child, hs: list, tracked, trace, sched_label=None):
@@ -750,6 +761,8 @@ def waited_write(kids, c: Child, hs: list, tracked, trace, sched_label=None):
     for h in hs:
         n = 0
         while c.state == "running" and h.state == "want" and h.tx == "y" and h.want["cls"] != "close" and n < 60:
+            if pump(kids, 0.05) and c.state != "running":    # a writer that cannot wait (open cursor) fails at once
+                break
             step(kids, h, tracked, trace)
             trace[-1]["while_writer_waits"] = c.idx
             n += 1
@@ -1712,6 +1725,9 @@ def selftest() -> int:
         lr = tlc("Gen_Workers", "Gen_Workers_life.cfg", workers=1)
         lcase = next(c for c in lr.cases if c["scn"]["drv"] and c["life"]["lateD"] and not c["scn"]["cursor"])
         lrp = replay_chunk([(1, lcase)])[0]
+        br = tlc("Gen_Workers", "Gen_Workers_boot3.cfg", workers=1)
+        bcase = next(c for c in br.cases if not c["scn"]["boot"] and c["idlew"][-1] == 2)
+        brp = replay_chunk([(2, bcase)])[0]
     ev = clean_events(rp["trace"])
     item = {"tid": 1, "scn": case["scn"], "n": 2, "events": ev, "real": rp["real"]}
     good = validate_traces(o, [item], "st")[1]
@@ -1737,4 +1753,22 @@ def selftest() -> int:
     print("performed:", [(e["p"], e["cls"], e["r"]) for e in lev], "real:", lrp["real"], "store ok:", lrp["store_ok"])
     print("unmodified: mismatches =", len(lgood["bad"]), "; close of the creating context reported to remove a side file:", lbad["bad"][:1])
     life_ok = not lgood["bad"] and lbad["bad"] and lbad["bad"][0]["cls"] == "close" and all(x == "ok" for x in lrp["real"]) and lrp["store_ok"]
-    return 0 if (not good["bad"] and bad["bad"] and res_ok == "ok" and res_bad == "bad" and o2.violations and life_ok) else 1
+    # transactions: three workers race for the bootstrap write, the earlier writers stay open (idle) while the last one
+    # writes; the transaction state reported with every operation agrees with the model; one idle point reported as
+    # "inside a transaction" -> TLC lists the difference, the judge reports the idle context (DRIFT by itself)
+    bev = clean_events(brp["trace"])
+    bitem = {"tid": 1, "scn": bcase["scn"], "n": 3, "events": bev, "real": brp["real"]}
+    bgood = validate_traces(o, [bitem], "st_boot3")[1]
+    bbad_ev = json.loads(json.dumps(bev))
+    k = next(i for i, e in enumerate(bbad_ev) if e["cls"] == "close" and e["p"] == 2)
+    bbad_ev[k]["tx"] = "y"
+    bbad = validate_traces(o, [dict(bitem, events=bbad_ev)], "st_boot3_bad")[1]
+    o3 = Outcome(PID, "quick")
+    judge(o3, {"kind": "G", "performed": bbad_ev}, brp["real"], brp["store_ok"], bcase, bbad)
+    print("boot3 schedule:", [[e["p"], e["l"]] for e in bcase["sched"]][9:])
+    print("performed (p, op, result, in_transaction):", [(e["p"], e["cls"], e["r"], e["tx"]) for e in bev][9:], "real:", brp["real"])
+    print("unmodified: mismatches =", len(bgood["bad"]), "transaction-state differences =", len(tx_obs(bgood)),
+          "; idle point of worker 2 reported inside a transaction:", tx_obs(bbad)[:1], "; judged: drift =", o3.drift_count, "violations =", len(o3.violations))
+    tx_ok = (not bgood["bad"] and not tx_obs(bgood) and all(x == "ok" for x in brp["real"]) and any(e["tx"] == "y" for e in bev)
+             and [b["k"] for b in tx_obs(bbad)] == ["idle"] and o3.drift_count >= 1 and not o3.violations)
+    return 0 if (not good["bad"] and bad["bad"] and res_ok == "ok" and res_bad == "bad" and o2.violations and life_ok and tx_ok) else 1
